@@ -62,6 +62,11 @@ func checkC01(c *Ctx) {
 		return
 	}
 	fl := NewFlow(p, commitInner)
+	// the base of the commit: the last committed block, or its view handed down as a value
+	baseView := kBlockView + "p2)"
+	if len(commitInner.Params) > 2 && commitInner.Params[2].Type().String() == modPath+".View" {
+		baseView = "p2"
+	}
 	siteOf := map[ssa.Instruction]Emit{}
 	for _, e := range sites {
 		siteOf[e.Instr] = e
@@ -89,7 +94,7 @@ func checkC01(c *Ctx) {
 				continue
 			}
 		}
-		ok := hasCmp(facts, "<", is(kBlockView+"p2)"), is(kBlockView+bk+")"))
+		ok := hasCmp(facts, "<", is(baseView), is(kBlockView+bk+")"))
 		c.Check(ok && bk == "p1", "C01.2", "commitInner: view gate", p.InstrPos(e.Instr),
 			"CommitEvent{Block: block} is emitted only under committedBlock.View() < block.View()",
 			"emission of CommitEvent{"+bk+"} not dominated by committedBlock.View() < block.View(); facts: "+join(facts.Sorted()))
@@ -123,7 +128,8 @@ func checkC01(c *Ctx) {
 		} else {
 			a := calls[0].Common().Args
 			k1, k2 := fc.K.Key(a[1]), fc.K.Key(a[2])
-			ok := k1 == "p1" && committedBlock != nil && strings.HasPrefix(k2, "(*hs/protocol.ViewStates).CommittedBlock(")
+			ok := k1 == "p1" && committedBlock != nil && (strings.HasPrefix(k2, "(*hs/protocol.ViewStates).CommittedBlock(") ||
+				baseView == "p2" && strings.HasPrefix(k2, kBlockView+"(*hs/protocol.ViewStates).CommittedBlock("))
 			c.Check(ok, "C01.4", "commit: base is the current committed block", p.Pos(calls[0].Pos()),
 				"commitInner(block, viewStates.CommittedBlock())", "commitInner called with ("+k1+", "+k2+")")
 		}
